@@ -14,6 +14,7 @@ fn groups_for(prop: &str, ctx: &Ctx) -> Vec<Box<dyn Group>> {
         "C19" => vec![Box::new(c19::Split), Box::new(c19::Msg), Box::new(c19::Dispatch::new(ctx))],
         "C09" => vec![Box::new(c09::Reply), Box::new(c09::Tiling)],
         "C12" => vec![Box::new(c12::Run), Box::new(c12::Serve)],
+        "C18" => vec![Box::new(c18::Write), Box::new(c18::Replace), Box::new(c18::ReadAll)],
         _ => vec![],
     }
 }
